@@ -87,6 +87,8 @@ CLAIMED = {
         technique='Lean 4 proof: inductive representation invariant + refinement to a reference model over a hand-written executable model of the core; differential correspondence check (lock-step judge) under a ledger allocator'),
     'C02': dict(category='proof', text="Lean: no_ub — from every well-formed state no operation with any argument value reaches a model-level UB (every raw-memory primitive of the model checks live/in-bounds/initialised/layout-exact/parity-decoded), in every configuration; invariant W1–W5 preserved (step_sound). T2: ledger allocator (layout-exact frees, red zones, poison+quarantine, unknown-pointer frees), every handle's [ptr, ptr+cap) inside one live block after every op, process-death detection, out-of-contract and near-usize::MAX arguments, debug and release. PARTIAL by nature: byte/allocation level only; provenance and aliasing rules of the Rust abstract machine are not expressible in M1 (see DESIGN).", design='§7 C02', note="Trusted: Lean kernel; the hand transliteration of src/bytes.rs + src/bytes_mut.rs into Model/Core.lean (tied by T2 only: lock-step judge compares outcome, every live handle's kind / allocation class + offset / len / capacity / is_unique / contents and the allocator-event delta after every op; ~250k ops per quick run, 0 disagreements on the unchanged tree); std's Vec/Box behaviour and the allocator contract as modelled (checked by T2); OpOK (slices <= isize::MAX); 64-bit usize.",
         technique='Lean 4 proof: inductive representation invariant + refinement to a reference model over a hand-written executable model of the core; differential correspondence check (lock-step judge) under a ledger allocator'),
+    'C03': dict(category='proof', text="Lean: the ledger invariant evOKB over the event history (every heap region allocated exactly once with its size, deallocated exactly once with that size iff dead, non-heap memory never allocated/freed by the crate, every owner has as_ref called exactly once and is dropped exactly once iff its control block is gone) is preserved by every operation incl. panics (evOK_step); no_leak (no live handle => no live heap region / control block), alive_while_viewed, owner_alive_while_viewed, all_released_once; drop orders are ordinary scripts, so every order is covered. T2: ledger balanced at the end of every script after dropping the survivors in random order, instrumented owners (as_ref / drop counters), dealloc events layout-exact.", design='§7 C03', note="As C01 (hand-written M1 tied by T2); Box<Owned<T>> drop glue calls T::drop once (std).",
+        technique='Lean 4 proof: inductive invariant over the monotone event history of a hand-written executable model of the core; differential correspondence check under a ledger allocator'),
     'C04': dict(category='proof', text='Lean: exclusivity (exclusiveB) and in-bounds (handleOKB) are conjuncts of the invariant preserved by step_sound; reserve_post (capacity-len >= n, len unchanged; contents by refines), reserve_unrepresentable (panics in every configuration), try_reclaim_post (true: same guarantee, no byte-buffer allocation; false: address/len/cap unchanged). T2: disjointness and containment of all BytesMut capacity ranges against the ledger after every op, fill-spare-capacity-then-reread, reserve/try_reclaim arguments around 0, spare, allocation size, isize::MAX, usize::MAX at every offset.', design='§7 C04', note="Trusted: Lean kernel; the hand transliteration of src/bytes.rs + src/bytes_mut.rs into Model/Core.lean (tied by T2 only: lock-step judge compares outcome, every live handle's kind / allocation class + offset / len / capacity / is_unique / contents and the allocator-event delta after every op; ~250k ops per quick run, 0 disagreements on the unchanged tree); std's Vec/Box behaviour and the allocator contract as modelled (checked by T2); OpOK (slices <= isize::MAX); 64-bit usize.",
         technique='Lean 4 proof: inductive representation invariant + refinement to a reference model over a hand-written executable model of the core; differential correspondence check (lock-step judge) under a ledger allocator'),
     'C07': dict(category='proof', text="Lean: zero_copy_{clone,slice,splitOff,splitTo,inplace(truncate/clear/freeze/from Vec),advance,unsplit,tryIntoMut}: result handles at source address + logical offset (also for empty split results), no alloc event, no region's data changed. T2: as_ptr equations on source and result (ledger block + offset) and no align-1 allocation in the op's ledger delta.", design='§7 C07', note="Trusted: Lean kernel; the hand transliteration of src/bytes.rs + src/bytes_mut.rs into Model/Core.lean (tied by T2 only: lock-step judge compares outcome, every live handle's kind / allocation class + offset / len / capacity / is_unique / contents and the allocator-event delta after every op; ~250k ops per quick run, 0 disagreements on the unchanged tree); std's Vec/Box behaviour and the allocator contract as modelled (checked by T2); OpOK (slices <= isize::MAX); 64-bit usize.",
